@@ -348,6 +348,31 @@ func runNeutralPairs(c *CaseDesc, rng *rand.Rand) []string {
 				break
 			}
 		}
+		// a provider that is not Required in the case: marked Required in both members of the pair (memoized ones first:
+		// their inputs are also the memo key)
+		var cands []*ProvDesc
+		for _, p := range c.Provs[:len(c.Provs)-1] {
+			if !p.Required && p.Kind != "lit" && !contains(p.In, cUnus) && p.Memoize {
+				cands = append(cands, p)
+			}
+		}
+		for _, p := range c.Provs[:len(c.Provs)-1] {
+			if !p.Required && p.Kind != "lit" && !contains(p.In, cUnus) && !p.Memoize && len(cands) < 2 && rng.Intn(3) == 0 {
+				cands = append(cands, p)
+			}
+		}
+		for k, p := range cands {
+			if k >= 2 {
+				break
+			}
+			cb := c.clone()
+			cb.provOf(p.Idx).Required = true
+			cv := cb.clone()
+			cv.provOf(p.Idx).In = append(cv.provOf(p.Idx).In, cUnus)
+			b := runCase(cb)
+			v := runCase(cv)
+			out = withPair(out, fmt.Sprintf("unused-made-required:%d", p.Idx), v, summarize(b, true).diff(summarize(v, true)))
+		}
 		if !contains(c.InvIn, cUnus) {
 			c4 := c.clone()
 			c4.InvIn = append(c4.InvIn, cUnus)
